@@ -87,8 +87,8 @@ class PropNF:
             while True:
                 if isinstance(x, ast.Call) and call_name(x) in ("pd.Series", "pd.DataFrame") and x.args:
                     x = x.args[0]
-                elif isinstance(x, ast.Call) and isinstance(x.func, ast.Attribute) and x.func.attr in ("fillna", "copy", "to_numpy"):
-                    x = x.func.value
+                elif isinstance(x, ast.Call) and isinstance(x.func, ast.Attribute) and x.func.attr in ("fillna", "copy", "to_numpy", "rename", "rename_axis", "astype"):
+                    x = x.func.value                    # value-preserving methods (a name or dtype is not a value)
                 elif isinstance(x, ast.Attribute) and x.attr == "values":
                     x = x.value
                 else:
